@@ -304,6 +304,9 @@ func (m *Machine) interp(caller *frame, fn *ssa.Function, args []Value, env []Va
 		m.unsupported("uninstantiated generic " + fn.String())
 	}
 	m.funcCount[fn]++
+	if m.path.countSub != "" && strings.Contains(fn.Name(), m.path.countSub) {
+		m.path.callCount++
+	}
 	dg := m.cur
 	dg.depth++
 	if dg.depth > m.lim.Depth {
